@@ -158,7 +158,25 @@ pub fn run(mut run: Run) -> i32 {
         }
     });
     // constructors and traits
-    let fam = families(&FamCfg { n: 3, ring_k: 4, ls_k: 3, mpt_m: 2, mls: 2, mpg: true, pgh: true, gc: true, stride: 3, mls_stride: 97, mpg_stride: 31, mls3_stride: 1 });
+    let mut fam = families(&FamCfg { n: 3, ring_k: 4, ls_k: 3, mpt_m: 2, mls: 2, mpg: true, pgh: true, gc: true, stride: 3, mls_stride: 97, mpg_stride: 31, mls3_stride: 1 });
+    // degenerate representations: line strings and rings of one or two coordinates, alone and as members (they count as closed)
+    {
+        use geo::{GeometryCollection, LineString, MultiLineString, Polygon};
+        let one = LineString::new(vec![Coord { x: 1.0, y: 2.0 }]);
+        let two = LineString::new(vec![Coord { x: 2.0, y: 1.0 }, Coord { x: 2.0, y: 1.0 }]);
+        let seg = LineString::new(vec![Coord { x: 0.0, y: 0.0 }, Coord { x: 2.0, y: 1.0 }]);
+        let sq = LineString::new(vec![Coord { x: 0.0, y: 0.0 }, Coord { x: 2.0, y: 0.0 }, Coord { x: 2.0, y: 2.0 }, Coord { x: 0.0, y: 2.0 }, Coord { x: 0.0, y: 0.0 }]);
+        for g in [
+            Geometry::LineString(one.clone()),
+            Geometry::LineString(two.clone()),
+            Geometry::MultiLineString(MultiLineString(vec![seg.clone(), one.clone(), two.clone()])),
+            Geometry::Polygon(Polygon::new(one.clone(), vec![])),
+            Geometry::Polygon(Polygon::new(sq.clone(), vec![one.clone()])),
+            Geometry::GeometryCollection(GeometryCollection(vec![Geometry::LineString(one.clone()), Geometry::LineString(seg.clone())])),
+        ] {
+            fam.push(Shape::new(AG::Pts(vec![(1, 2)]), g, "DEGEN1"));
+        }
+    }
     let nf = fam.len();
     let angles = [0.0, 90.0, -90.0, 180.0, 270.0, 360.0, 45.0, 30.0];
     let factors = [0.5, 1.0, 2.0, -1.0];
@@ -311,7 +329,8 @@ pub fn run(mut run: Run) -> i32 {
         let refl = m[0] * m[3] - m[1] * m[2] < 0;
         maps.push((AffineTransform::new(m[0] as f64 * s, m[1] as f64 * s, t.0, m[2] as f64 * s, m[3] as f64 * s, t.1), s, refl, format!("D4[{}] t={:?} s={:e}", k, t, s)));
     }
-    let sub: Vec<&Shape> = fam.iter().step_by(if quick { 3 } else { 1 }).collect();
+    // (the degenerate representations are not valid operands of relate: they take part in the single-geometry stages only)
+    let sub: Vec<&Shape> = fam.iter().filter(|s| s.fam != "DEGEN1").step_by(if quick { 3 } else { 1 }).collect();
     let ns = sub.len();
     let nmaps = maps.len();
     run.extra.insert("similarity_maps".into(), json!(nmaps));
